@@ -23,6 +23,9 @@ def main():
             self.bounds = {"x": [-4.0, 4.0], "y": [-4.0, 4.0]}
 
         def log_prior(self, x):
+            if cfg.get("prior") == "gauss":
+                # a prior that varies inside the bounds (the unit-cube map stays linear, so the unit-cube density is not flat)
+                return np.log(self.in_bounds(x), dtype=float) - 0.125 * (x["x"] ** 2 + x["y"] ** 2) - 3.0
             return np.log(self.in_bounds(x), dtype=float) - np.log(64.0)
 
         def log_likelihood(self, x):
@@ -40,6 +43,8 @@ def main():
                 y[n] = 8.0 * x[n] - 4.0
             return y
 
+    if cfg.get("prior") == "gauss":
+        G.log_prior_unit_hypercube = lambda self, x: self.log_prior(self.from_unit_hypercube(x)) + np.log(64.0)
     model = G()
     kw = dict(cfg["kwargs"])
     ins = bool(cfg.get("ins"))
@@ -85,6 +90,14 @@ def main():
                 fs.run(plot=False, save=bool(cfg.get("save", True)), **run_kw)
             except StopHere:
                 continue
+        if cfg.get("resume_finished"):
+            # the run is complete: start once more from its final checkpoint, as a user re-running the script would
+            state["stop"] = None
+            del fs
+            fs = FlowSampler(model, resume=True, checkpointing=True, checkpoint_on_iteration=True,
+                             checkpoint_interval=cfg.get("checkpoint_interval", 1), **common_kw, **kw)
+            resumed_at.append(int(fs.ns.iteration))
+            fs.run(plot=False, save=bool(cfg.get("save", True)), **run_kw)
         cls.checkpoint = real_ckpt
     ns = fs.ns
     flt = lambda a: [float(v) for v in np.asarray(a, dtype=float).ravel()]
@@ -163,6 +176,8 @@ def collect(cfg, fs, ns, model, ins, run_kw, flt):
         out["samples"] = {"logL": flt(su["logL"]), "logW": flt(su["logW"]), "x": flt(su["x"]), "y": flt(su["y"])}
         phys = model.from_unit_hypercube(su)
         out["logL_re"] = flt(model.log_likelihood(phys))
+        out["samples"]["logP"] = flt(su["logP"])
+        out["logP_re"] = flt(model.log_prior(phys))
         out["state"] = {"logZ": float(ns.log_evidence), "error": float(ns.log_evidence_error),
                         "lpw": flt(ns.log_posterior_weights)}
         out["n_train"] = int(len(ns.training_samples.samples))
